@@ -7,7 +7,8 @@ import LitexModel.Verilog.Stmt
     * `_Assign`  → `lhs <= rhs;`
     * `If`       → `if (cond) begin … end [else begin … end]` (the `else` only if `node.f` is non-empty)
     * `Case`     → nothing if the dictionary is empty; else `case (test)` with the Constant-keyed items
-                   SORTED by key value, then `default:` if present.
+                   SORTED by key value, then `default:` if present.  The keys are printed in the unsigned form
+                   `w'dV` / `-w'd|V|` whatever their sign flag (`Constant(choice.value, (choice.nbits, False))`).
 -/
 namespace Litex.C01
 
@@ -54,7 +55,7 @@ def printSs : Stmts → VStmts
   | .cons s ss => .cons (printS s) (printSs ss)
 def printItems : Items → VItems
   | .nil => .nil
-  | .cons k kw ks body rest => .cons (printConst k kw ks).1 (printSs body) (printItems rest)
+  | .cons k kw _ body rest => .cons (printConstU k kw) (printSs body) (printItems rest)
 end
 
 /-- `_generate_node(ns, NON_BLOCKING, level, stmts)`. -/
